@@ -234,6 +234,30 @@ func runC04(line string) string {
 			for t := 0; t < 100 && sp.counter("upstream.slots_refresh.success_total") == before; t++ {
 				time.Sleep(5 * time.Millisecond)
 			}
+		case "p":
+			// n INCRs of one key written at once: when they are redirected they must still execute in the order sent
+			cnt, _ := strconv.Atoi(fs[1])
+			key, _ := hex.DecodeString(fs[2])
+			var buf []byte
+			for j := 0; j < cnt; j++ {
+				buf = append(buf, bulkArr([]byte("incr"), key).bytes()...)
+			}
+			cl.mu.Lock()
+			cl.onAsk = nil
+			for _, nd := range cl.nodes {
+				nd.log = nil
+			}
+			cl.mu.Unlock()
+			sc.send(buf, nil)
+			for j := 0; j < cnt; j++ {
+				r, err := sc.recv(4 * time.Second)
+				if err != nil {
+					replies = append(replies, "TIMEOUT")
+					break
+				}
+				replies = append(replies, r.String())
+				execs = append(execs, "1")
+			}
 		case "q":
 			body := fs[1:]
 			var hook []c04Step
@@ -343,7 +367,7 @@ func init() {
 			for j := 0; j < 5; j++ {
 				keys = append(keys, []byte("k"+strconv.Itoa(r.intn(40))))
 			}
-			keys = append(keys, []byte("{t}a"), []byte("{t}b"))
+			keys = append(keys, []byte("{t}a"), []byte("{t}b"), []byte("ctr0"), []byte("ctr1"), []byte("ctr2"))
 			slotOf := func(k []byte) int { return simSlot(k) }
 			migrating := map[int]bool{}
 			deadSeed := map[int]bool{}
@@ -406,6 +430,10 @@ func init() {
 						items = append(items, "w")
 					}
 				default:
+					if r.chance(1, 6) {
+						items = append(items, fmt.Sprintf("p %d %s", 3+r.intn(12), hex.EncodeToString([]byte("ctr"+strconv.Itoa(r.intn(3))))))
+						continue
+					}
 					q := "q " + req()
 					if !multi && r.chance(1, 3) {
 						// hook steps must not begin a migration of a slot touched by this request: use key moves / finishes only
